@@ -305,7 +305,7 @@ def _run_project(plan: dict, root: str, pdir: str, out: Outcome) -> None:
     sink = io.StringIO()
     ex = mn.Executor(m, bdir, jobs=3, incremental=False, keep_going=0, env=xenv, out=sink)
     try:
-        ex.run(['all', 'rt_plain', 'rt_env'])
+        ex.run(['all'] + list(plan.get('run_targets') or ['rt_plain', 'rt_env']))
     except mn.BuildFailure as e:
         out.count('inconclusive:build-failure')
         out.inconclusive.append({'why': 'mini-ninja BuildFailure', 'err': str(e), 'plan': plan_params(plan)})
@@ -365,6 +365,32 @@ def _run_project(plan: dict, root: str, pdir: str, out: Outcome) -> None:
             out.count('monitor:test_argv_compared')
         out.cases.append(common.digest([pos, mode, exp['runs'], exp['env']]))
         locus = {'id': ident, 'pos': pos, 'kind': kind, 'mode': mode, 'rsp_project': plan['rsp']}
+        if exp.get('multi'):
+            # a group of pickled-wrapper commands sharing program/env/workdir: each must get its OWN argv
+            out.count('monitor:argv_compared', len(exp['multi']) - 1)
+            out.count('monitor:pickle_collision_group_compared')
+            if any(o in by_out and by_out[o].idx not in started for o in exp['outs']):
+                out.count('blocked_by_failed_dependency')
+                continue
+            obs_set = sorted([l1_to_str(a) for a in g['argv']] for g in got)
+            want_set = sorted(list(v) for v in exp['multi'])
+            wenv = exp['env'] or {}
+            env_bad = [g['env'] for g in got if {k_: l1_to_str(v_) for k_, v_ in g['env'].items()} != wenv]
+            modes_seen = sorted({command_mode(by_out[o].get('command')) for o in exp['outs'] if o in by_out})
+            if obs_set != want_set or env_bad:
+                missing = [v for v in want_set if v not in obs_set]
+                extra = [v for v in obs_set if v not in want_set]
+                cmds = {o: by_out[o].get('command')[-120:] for o in exp['outs'] if o in by_out}
+                what = 'argv-delivered-to-wrong-command' if missing and len(obs_set) == len(want_set) else \
+                    ('env-bytes' if not missing and not extra else 'argv-set-mismatch')
+                _violate(out, plan, f'{kind}:{"+".join(modes_seen)}:{what}',
+                         dict(locus, missing=missing[:3], unexpected=extra[:3], n_expected=len(want_set), n_observed=len(obs_set),
+                              env_bad=env_bad[:1], commands=cmds, same_pickle_file=len(set(cmds.values())) < len(cmds)))
+            else:
+                mm = out.modes.setdefault(pos, {})
+                for md in modes_seen:
+                    mm[md] = mm.get(md, 0) + 1
+            continue
         if not got and exp.get('out') and exp['out'] in by_out and by_out[exp['out']].idx not in started:
             # never started because an edge it depends on failed: that failure is reported at its own position
             out.count('blocked_by_failed_dependency')
@@ -752,7 +778,7 @@ def main() -> int:
     if done < len(order):
         chk.count('projects_skipped_time_budget', len(order) - done)
 
-    for k in ('monitor:exe_rsp_file_checked', 'monitor:argv_compared', 'monitor:test_argv_compared', 'monitor:elem_roundtrip', 'monitor:exe_pickle_checked',
+    for k in ('monitor:pickle_collision_group_compared', 'monitor:exe_rsp_file_checked', 'monitor:argv_compared', 'monitor:test_argv_compared', 'monitor:elem_roundtrip', 'monitor:exe_pickle_checked',
               'monitor:exe_cmdline_checked', 'monitor:rsp_decoded', 'monitor:compile_slot_compared', 'monitor:link_slot_compared',
               'monitor:env_compared', 'monitor:stdin_compared', 'monitor:contract_quote_arg', 'monitor:contract_rsp_quote',
               'monitor:contract_ninja_quote', 'monitor:buildargv_calibrated_agree', 'monitor:literal_calibration',
